@@ -51,7 +51,8 @@ EXPECTED_PROBES = ["cls_Dataset", "cls_Dataset2d", "cls_Dataset3d", "cls_Dataset
                    "getitem_partial", "length1_axis", "rejected_setter", "rejected_shape_arg",
                    "inplace_vs_copy_compared", "pairs_steered", "complex_dtype", "int_dtype",
                    "axis_ge_16", "getitem_numpy_int_slice_step", "bin_factor_equals_axis_length",
-                   "pad_width_larger_than_axis", "pad_mode_other", "nonfinite_values_in_data", "layout_F", "layout_strided", "layout_readonly", "layout_negstride"]
+                   "pad_width_larger_than_axis", "pad_mode_other", "nonfinite_values_in_data",
+                   "non_native_byte_order", "layout_F", "layout_strided", "layout_readonly", "layout_negstride"]
 
 _D = {}
 _registry0 = None
@@ -92,7 +93,8 @@ def _gen_create(r):
         shape[big.randrange(ndim)] = big.pick([16, 17, 32, 33, 64, 100, 256])
     return {"op": "create", "cls": cls, "shape": shape,
             "dtype": r.pick(["float64", "float32", "int32", "uint8", "int64", "complex64"]) if r.chance(0.85)
-            else r.fork("dt").pick(["bool", "float16", "complex128", "uint16", "int8"]),
+            else r.fork("dt").pick(["bool", "float16", "complex128", "uint16", "int8",
+                                    ">f4", ">u2", ">c8", ">i4", ">f8"]),     # non-native byte order (MRC / DM files)
             # memory layout of the array handed to from_array
             "layout": r.fork("layout").pick(["C", "C", "C", "F", "strided", "readonly", "negstride"]),
             "fill": r.randrange(10 ** 6), "calib": r.chance(0.7), "int_calib": r.chance(0.2)}
@@ -216,6 +218,8 @@ def _canon(a):
     """Contiguous copy with every NaN replaced by ONE NaN bit pattern (payload and sign of a NaN are
     not data; whether an element IS a NaN is)."""
     a = np.ascontiguousarray(a)
+    if not a.dtype.isnative:
+        a = a.astype(a.dtype.newbyteorder("="))      # values, not byte order (the dtype is compared apart)
     if a.dtype.kind == "f":
         m = np.isnan(a)
         if m.any():
@@ -478,6 +482,8 @@ def run(plan):
                     bump(probes, "complex_dtype")
                 if arr.dtype.kind in "fc" and not np.isfinite(arr).all():
                     bump(probes, "nonfinite_values_in_data")
+                if not arr.dtype.isnative:
+                    bump(probes, "non_native_byte_order")
                 if np.dtype(op["dtype"]).kind in "iu":
                     bump(probes, "int_dtype")
                 g = Rng(op["fill"])
